@@ -223,6 +223,149 @@ def build_manager(fns):
     return [sc]
 
 
+def build_expiry_origin(fns):
+    """the expiry written by an export is (the clock at export time + the requested validity), in seconds since the epoch"""
+    sc = smt.Script("c18_export_expiry_origin")
+    fld = _footer_fields()
+    for label, pat in (("export_with_expiration", r"shard_file_handle::<impl at [^>]*>::export_with_expiration$"),
+                       ("export_as_keyed_shard_impl", r"shard_format::<impl at [^>]*>::export_as_keyed_shard_impl$")):
+        f = mir.find_fn(fns, pat)
+        # start at the clock read; the chain now() -> add(valid_for) -> duration_since(EPOCH) -> as_secs -> footer.shard_key_expiry
+        start = [bb for bb in f.order if not f.blocks[bb][2] and re.search(r"SystemTime::now\(", f.blocks[bb][1])]
+        if not start:
+            sc.query("%s: the expiry is derived from the clock read at export time" % label, ["true"])
+            continue
+        s = symex.Sym(f, prefix=label[:10] + ".", models=symex.STD_MODELS, max_visits=1)
+        ok_paths = 0
+        for i, p in enumerate(s.run(start[0], stop_at_call=r"MDBShardFileFooter::serialize|write_out_from_reader|::serialize::<", max_paths=400)):
+            if p.end != "stop":
+                continue
+            now = [e for e in p.events if re.search(r"SystemTime::now$", e[0])]
+            add = [e for e in p.events if re.search(r"SystemTime as Add<Duration>>::add$", e[0])]
+            dur = [e for e in p.events if re.search(r"SystemTime::duration_since$", e[0])]
+            secs = [e for e in p.events if re.search(r"Duration::as_secs$", e[0])]
+            dest = lambda e: p.store.get(mir.parse_term(f.blocks[e[2]][1])["dest"].strip())
+            exp_keys = [k_ for k_ in p.store if re.match(r"_\d+\.%d$" % fld["shard_key_expiry"], k_)]
+            chain = False
+            for a_ in add:
+                nowv = [dest(n_) for n_ in now]
+                if a_[4][0].kind == "opaque" and any(nv is not None and nv.t == a_[4][0].t for nv in nowv):
+                    av = dest(a_)
+                    for d_ in dur:
+                        r0 = d_[4][0]
+                        if r0.kind == "ref" and av is not None and p.store.get(s.key(r0.t)) is not None and p.store[s.key(r0.t)].t == av.t:
+                            chain = True
+            val_ok = False
+            for k_ in exp_keys:
+                v = p.store[k_]
+                if any(dest(e_) is not None and dest(e_).t == v.t for e_ in secs):
+                    val_ok = True
+            ok_paths += 1
+            sc.query("%s: expiry = seconds since the epoch of (SystemTime::now() + validity) [path %d]" % (label, i), ["false"] if (chain and val_ok) else ["true"])
+            va = [a_[4][1] for a_ in add]
+            sc.query("%s: the validity added is the caller's argument [path %d]" % (label, i), ["false"] if va and any(x.kind == "opaque" and re.search(r"\._[34]$", x.t) for x in va) else ["true"])
+        if not ok_paths:
+            sc.query("%s: the footer is written after the expiry was set" % label, ["true"])
+        sc.declare(s.decls)
+    sc.query("witness: expiry chains found", ["true"], expect="sat", kind="witness")
+    return [sc]
+
+
+def build_keyed_hashes(fns):
+    """keyed export: with a non-zero key every chunk entry is written with hmac(key, hash), whatever tables are requested"""
+    f = mir.find_fn(fns, r"shard_format::<impl at [^>]*>::export_as_keyed_shard_impl$")
+    loops = mir.natural_loops(f)
+    heads = [h for h, body in loops.items() if re.search(r"Range<u32> as Iterator>::next", f.blocks[h][1]) and any(re.search(r"CASChunkSequenceEntry::serialize", f.blocks[b][1]) for b in body)]
+    if len(heads) != 1:
+        raise LookupError("export: chunk copying loop not found")
+    s = symex.Sym(f, prefix="kh.", models=symex.STD_MODELS, max_visits=1)
+    sc = smt.Script("c18_export_keyed_hashes")
+    n = 0
+    for i, p in enumerate(s.run(heads[0], max_paths=400)):
+        if p.end != "bound":
+            continue
+        ser = [e for e in p.events if re.search(r"CASChunkSequenceEntry::serialize", e[0])]
+        de = [e for e in p.events if re.search(r"CASChunkSequenceEntry::deserialize", e[0])]
+        hm = [e for e in p.events if re.search(r"DataHash::hmac$", e[0])]
+        ne = [e for e in p.events if re.search(r"DataHash as PartialEq>::(ne|eq)$", e[0])]
+        if len(ser) != 1 or len(de) != 1:
+            continue
+        n += 1
+        tag = "export chunk loop [path %d]" % i
+        if not ne:
+            sc.query("%s: the key is compared with the zero key before a chunk is written" % tag, ["true"])
+            continue
+        res = p.store.get(mir.parse_term(f.blocks[ne[0][2]][1])["dest"].strip())
+        keyed = None
+        if res is not None and res.kind == "bool":
+            keyed = res.t if ne[0][0].endswith("::ne") else mk_not(res.t)
+        # the entry written: its hash field must be the hmac result on keyed paths
+        a0 = ser[0][4][0]
+        hv = None
+        if a0.kind == "ref":
+            hv = p.store.get(s.key(("field", a0.t, 0, "DataHash")))
+        hm_res = [p.store.get(mir.parse_term(f.blocks[e[2]][1])["dest"].strip()) for e in hm]
+        written_keyed = hv is not None and any(r_ is not None and r_.t == hv.t for r_ in hm_res)
+        if keyed is None:
+            sc.query("%s: keyedness decided by comparing the key" % tag, ["true"])
+        elif written_keyed:
+            sc.query("%s: a keyed hash is written only under a non-zero key" % tag, p.pc + [mk_not(keyed)])
+        else:
+            sc.query("%s: with a non-zero key the chunk entry is written with the keyed hash" % tag, p.pc + [keyed])
+        sc.query("witness: %s feasible" % tag, p.pc, expect="sat", kind="witness")
+    if n < 2:
+        raise LookupError("export: expected keyed and unkeyed chunk-copy paths (%d)" % n)
+    sc.declare(s.decls)
+    return [sc]
+
+
+def build_register(fns):
+    """ShardFileManager::register_shards: a key is given the collection index that is current in the same iteration, and the chunk
+    offset stored as u16 was checked to fit"""
+    from mirsym import modeb
+    f = mir.find_fn(fns, r"shard_file_manager::<impl at [^>]*>::register_shards::\{closure#0\}$")
+    g = modeb.CFG(f)
+    sc = smt.Script("c18_register_shards")
+    nxt = [b for b in g.nodes if g.callee(b) and re.search(r"IntoIter<(std::sync::)?Arc<(\w+::)*MDBShardFile>> as Iterator>::next$", g.callee(b))]
+    ins = g.blocks_calling(r"Entry::<.*>::or_insert$|or_insert$")
+    ln = g.blocks_calling(r"Vec::<(\w+::)*KeyedShardCollection>::len$")
+    if not (nxt and ins):
+        raise LookupError("register_shards shape not recognised (next=%s or_insert=%s)" % (nxt, ins))
+    modeb.no_path_query(g, sc, "a key is assigned a collection index only after the number of collections was read in the same iteration", modeb.after(g, nxt), ins, ln)
+    modeb.no_path_query(g, sc, "witness: a key gets a collection index", modeb.after(g, nxt), ins, [], expect="sat", kind="witness")
+    # narrowing casts in the chunk-lookup insertion loop: the value stored as u16 is below 2^16 on the path
+    loops = mir.natural_loops(f)
+    heads = [h for h, body in loops.items() if any(re.search(r"HashMap::<u64, (\w+::)*ChunkCacheElement>::insert", f.blocks[b][1]) for b in body)]
+    if not heads:
+        raise LookupError("register_shards: chunk lookup insertion loop not found")
+    head = min(heads, key=lambda h: len(loops[h]))
+    s = symex.Sym(f, prefix="rg.", models=symex.STD_MODELS, max_visits=1)
+    n = 0
+    for i, p in enumerate(s.run(head, max_paths=400)):
+        if p.end != "bound" or not any(re.search(r"ChunkCacheElement>::insert", e[0]) for e in p.events):
+            continue
+        for bb in p.trace:
+            for st in f.blocks[bb][0]:
+                m = re.match(r"(.+?) = (?:copy|move) (.+?) as u16 \(IntToInt\)$", st)
+                if not m:
+                    continue
+                try:
+                    v = s.operand(p, "copy " + m.group(2))[0]
+                except Exception:
+                    continue
+                if v.kind != "bv" or v.w <= 16:
+                    continue
+                n += 1
+                is_shard_index = v.w == 64
+                if is_shard_index:
+                    continue  # shard_index (usize) is bounded by the number of shards per collection: outside this obligation
+                sc.query("a chunk offset stored as u16 in the lookup was checked to fit (<= 65535) on the same path [path %d]" % i, p.pc + ["(bvugt %s %s)" % (v.t, bvconst(65535, v.w))])
+    if not n:
+        sc.query("the chunk lookup stores offsets as u16 after a range check", ["true"])
+    sc.declare(s.decls)
+    return [sc]
+
+
 def replay(model, fnd, prop):
     env = base_env()
     env["CARGO_TARGET_DIR"] = os.path.join(BUILD, "replay_target")
@@ -244,5 +387,14 @@ SMT = [Q("c18_expiry", "load / delete decisions of keyed shards as functions of 
          replay=native_test("c18_mixed_key_dedup", "C18 violated", "native replay passes: keyed shard answers like the original next to an unkeyed shard")),
        Q("c18_export_tables", "keyed export writes each lookup table under the flag that collects it", "mdb_shard", build_export,
          functions=["mdb_shard::shard_format::MDBShardInfo::export_as_keyed_shard_impl"], bounds="all paths of the footer region; one iteration of each collecting loop from an arbitrary state",
-         replay=native_test("c18_export_flags", "C18 violated", "native replay passes: every flag combination keeps what it was asked to keep"))]
+         replay=native_test("c18_export_flags", "C18 violated", "native replay passes: every flag combination keeps what it was asked to keep")),
+       Q("c18_export_keyed_hashes", "with a non-zero key every exported chunk entry carries the keyed hash, for every table selection", "mdb_shard", build_keyed_hashes,
+         functions=["mdb_shard::shard_format::MDBShardInfo::export_as_keyed_shard_impl (chunk copying loop)"], bounds="one iteration from an arbitrary state",
+         replay=native_test("c18_export_flags", "C18 violated", "native replay passes: exported chunk hashes are keyed for every flag combination")),
+       Q("c18_export_expiry_origin", "an export's expiry is now + validity", "mdb_shard", build_expiry_origin,
+         functions=["mdb_shard::shard_file_handle::MDBShardFile::export_with_expiration", "MDBShardInfo::export_as_keyed_shard_impl"], bounds="all paths from the clock read to the footer write",
+         solvers=("z3", "cvc5-bv"), replay=native_test("c18_expiry_native", "C18 violated", "native replay passes")),
+       Q("c18_register_shards", "shard registration: per-iteration collection index, u16 offsets checked", "mdb_shard", build_register,
+         functions=["mdb_shard::shard_file_manager::ShardFileManager::register_shards"], bounds="all CFG paths; one iteration of the lookup insertion loop",
+         solvers=("z3", "cvc5-bv"), replay=native_test("c18_mixed_key_dedup", "C18 violated", "native replay passes: shards under several keys in one directory all answer"))]
 KANI = []
